@@ -480,7 +480,10 @@ func (hubHarness) Run(spec any) (res verifsim.RunResult) {
 			}
 			s.Stop()
 			verifsim.Watch(nil)
-			for _, rec := range allConns {
+			mu.Lock()
+			toClose := append([]*hubConnRec(nil), allConns...) // actors of a deadlocked run may still be adding
+			mu.Unlock()
+			for _, rec := range toClose {
 				rec.once.Do(func() { close(rec.unblock) })
 			}
 			// writers orphaned by a lost session entry never see their channel closed;
